@@ -309,13 +309,14 @@ func c09(r *engine.Run) {
 	decodeOutcomes := engine.NewCounter()
 	nontrivial := engine.NewSet()
 	distinctTx := engine.NewSet()
+	corpusSeen := engine.NewSet()
 	var evals, decodes, encAgree int64
 
 	heavyBase := func(bi int) bool {
 		if r.Thorough() {
-			return bi == 0 || bi == 8
+			return bi == 0 || bi == 4 || bi == 8
 		}
-		return bi == 4 // quick: the 65535/65536 element operators only on the 2in-2out base (thorough: the 1in-1out and the 3in-3out base)
+		return bi == 4 // quick: the 65535/65536 element operators only on the 2in-2out base (thorough: the 1in-1out, 2in-2out and 3in-3out bases)
 	}
 
 	// quick tier: the four 65535/65536-element operators meet only these partners (both orders); thorough: every operator
@@ -382,10 +383,11 @@ func c09(r *engine.Run) {
 					r.Failf("Transaction.Serialize:bytes-differ-from-documented-layout", c09case{Base: baseName, Op1: ops[jb.i].name, Op2: ops[jb.j].name, TxHex: hexCap(enc)},
 						"reference encoding %d bytes, real %d bytes", len(enc), len(realEnc))
 				}
-				if len(enc) <= 1200 && (r.Thorough() || jb.i == 0 || jb.j == 0 || jb.bi == 4) {
-					serC <- ser{enc, baseName + "/" + ops[jb.i].name + "/" + ops[jb.j].name}
-				}
 			}
+		}
+		// canonicality corpus: membership must not depend on which of several jobs producing the same bytes ran first
+		if enc != nil && len(enc) <= 1200 && (r.Thorough() || jb.i == 0 || jb.j == 0 || jb.bi == 4) && corpusSeen.Add(id) {
+			serC <- ser{enc, baseName + "/" + ops[jb.i].name + "/" + ops[jb.j].name}
 		}
 		badS, badU := mtx.WellFormedBoth(t, cache)
 		for _, signed := range []bool{true, false} {
@@ -442,7 +444,7 @@ func c09(r *engine.Run) {
 		lightPhase = r.Elapsed().Seconds()
 		close(heavyDone)
 	}()
-	engine.ParForN(r.Pick(3, 4), len(heavy), func(k int) {
+	engine.ParForN(r.Pick(3, 6), len(heavy), func(k int) {
 		t0 := time.Now()
 		runJob(heavy[k])
 		if os.Getenv("VERIF_DEBUG") != "" {
@@ -563,7 +565,7 @@ func c09(r *engine.Run) {
 	r.Assumptions = append(r.Assumptions,
 		"bounded to 9 base shapes (1..3 inputs × 1..3 outputs) and all ordered pairs of the listed operators; element counts 65535/65536 reached by padding with null-signed inputs / 1-droplet outputs",
 		"signature clause decided by a textbook big.Int ECDSA recovery (model/txnsecp); error texts are not compared, only accept/reject",
-		"65535/65536-element operators on 1 (quick) / 2 (thorough) of the 9 bases and, in the quick tier, paired only with 5 selected partner operators and each other (thorough: with all); quick tier: canonicality corpus = single-operator serialisations of all bases + all pairs of the 2in-2out base; thorough: everything",
+		"65535/65536-element operators on 1 (quick) / 3 (thorough) of the 9 bases and, in the quick tier, paired only with 5 selected partner operators and each other (thorough: with all); quick tier: canonicality corpus = single-operator serialisations of all bases + all pairs of the 2in-2out base; thorough: everything",
 		"byte-level decode mutations only on serialisations of at most 1200 bytes")
 	opNames := make([]string, len(ops))
 	for i := range ops {
